@@ -96,7 +96,7 @@ def load_schemas(progs):
         list(ex.map(one, progs))
 
 
-def run_programs(progs, tag, timeout=900, env_extra=None):
+def run_programs(progs, tag, timeout=900, env_extra=None, drop=None):
     """Runs every program's cases on the real code (parallel).  Case ids are
     rewritten to '<program index>:<case index>'."""
     def one(ip):
@@ -109,7 +109,49 @@ def run_programs(progs, tag, timeout=900, env_extra=None):
             c = dict(c)
             c["id"] = "%d:%d" % (i, j)
             cases.append(c)
+        if not os.path.exists(os.path.join(p.build["dir"], "drv")):
+            p.build = farm().build(p.key, p.src)
         p.events = run_driver(p.build, {"cases": cases}, tag, timeout=timeout, env_extra=env_extra)
+        if drop if drop is not None else len(progs) > 400:
+            farm().drop_binary(p.build)      # thousands of 4 MB binaries do not fit the disk; rebuilt on demand
+            for fn in ("job_%s.json" % tag, "ev_%s.ndjson" % tag):
+                try:
+                    os.remove(os.path.join(p.build["dir"], fn))
+                except OSError:
+                    pass
+    with cf.ThreadPoolExecutor(max_workers=NCPU) as ex:
+        list(ex.map(one, list(enumerate(progs))))
+
+
+def ensure_built(p):
+    if p.build is None or (p.build["status"] == "ok" and not os.path.exists(os.path.join(p.build["dir"], "drv"))):
+        p.build = farm().build(p.key, p.src)
+    return p.build
+
+
+def build_and_run(progs, tag, timeout=900, drop=True):
+    """Streaming variant for large program sets: generate + compile + run + drop the binary, per program."""
+    fm = farm()
+
+    def one(ip):
+        i, p = ip
+        p.build = fm.build(p.key, p.src)
+        p.events = []
+        if p.build["status"] != "ok" or not p.cases:
+            return
+        cases = []
+        for j, c in enumerate(p.cases):
+            c = dict(c)
+            c["id"] = "%d:%d" % (i, j)
+            cases.append(c)
+        p.events = run_driver(p.build, {"cases": cases}, tag, timeout=timeout)
+        if drop:
+            fm.drop_binary(p.build)
+            for fn in ("job_%s.json" % tag, "ev_%s.ndjson" % tag):
+                try:
+                    os.remove(os.path.join(p.build["dir"], fn))
+                except OSError:
+                    pass
     with cf.ThreadPoolExecutor(max_workers=NCPU) as ex:
         list(ex.map(one, list(enumerate(progs))))
 
@@ -180,13 +222,13 @@ def judge_programs(ck, progs, props, tag, describe=None, max_report=12, confirm=
                     c = dict(c)
                     c["id"] = "0:%d" % j
                     cs.append(c)
-                evs = [e for e in run_driver(p.build, {"cases": cs}, tag + "_confirm", timeout=2400, env_extra=env_extra) if e.get("ev") != "DriverDied"]
+                evs = [e for e in run_driver(ensure_built(p), {"cases": cs}, tag + "_confirm", timeout=2400, env_extra=env_extra) if e.get("ev") != "DriverDied"]
                 v2, _ = judge(evs, props, tag=tag + "c")
                 conj2 = sorted({v["conjunct"] for v in v2 if v["prop"] in props and v["case"] == "0:%d" % ci})
             else:
                 c2 = dict(case)
                 c2["id"] = "0:0"
-                evs = [e for e in run_driver(p.build, {"cases": [c2]}, tag + "_confirm", env_extra=env_extra) if e.get("ev") != "DriverDied"]
+                evs = [e for e in run_driver(ensure_built(p), {"cases": [c2]}, tag + "_confirm", env_extra=env_extra) if e.get("ev") != "DriverDied"]
                 v2, _ = judge(evs, props, tag=tag + "c", chunks=1)
                 conj2 = sorted({v["conjunct"] for v in v2 if v["prop"] in props})
             if not set(conj) & set(conj2):
